@@ -357,7 +357,7 @@ def check_scipy(case, ctx):
     g = cls(rescale=case["rescale"]) if case["rescale"] else (cls() if case["kind"] == "linear" else cls(rescale=False))
     g.fit((pts[:, 0].reshape(ds), pts[:, 1].reshape(ds)), vals.reshape(ds))
     qe, qn = qs[:, 0].reshape(qshape), qs[:, 1].reshape(qshape)
-    got = np.asarray(g.predict((qe, qn)))
+    got = np.asarray(g.predict(vbuild.maybe_stack((qe, qn), vbuild.stack_flag(case))))
     ref_cls = LinearNDInterpolator if case["kind"] == "linear" else CloughTocher2DInterpolator
     ref = ref_cls(np.column_stack([pts[:, 0], pts[:, 1]]), vals, rescale=case["rescale"])((qe, qn))
     ctx.check(got.shape == tuple(qshape), "prediction shape %s for query shape %s", got.shape, tuple(qshape))
